@@ -15,32 +15,40 @@ VARIABLES
   pendingKind,          \* FIFO of datagrams the server has handed to its socket and the network has not shown yet:
                         \* [kind |-> "conn" | "sr" | "vn" | "retry", len |-> bytes (connection datagrams) ]
   answered,             \* number of endpoint-level replies sent so far
-  clientInitial         \* the client has written an Initial packet into the datagram being built
-avars == <<rcvd, sentB, valid, triggers, pendingKind, clientInitial, answered>>
-AInit == rcvd = <<>> /\ sentB = <<>> /\ valid = {} /\ triggers = <<>> /\ pendingKind = <<>> /\ clientInitial = FALSE /\ answered = 0
-AReset == rcvd' = <<>> /\ sentB' = <<>> /\ valid' = {} /\ triggers' = <<>> /\ pendingKind' = <<>> /\ clientInitial' = FALSE /\ answered' = 0
+  clientInitial,        \* the client has written an Initial packet into the datagram being built
+  eligible,             \* datagrams the network has accepted towards the server (copies and forged ones included)
+  retries               \* Retry datagrams that have left the server
+avars == <<rcvd, sentB, valid, triggers, pendingKind, clientInitial, answered, eligible, retries>>
+AInit == rcvd = <<>> /\ sentB = <<>> /\ valid = {} /\ triggers = <<>> /\ pendingKind = <<>> /\ clientInitial = FALSE /\ answered = 0 /\ eligible = 0 /\ retries = 0
+AReset == rcvd' = <<>> /\ sentB' = <<>> /\ valid' = {} /\ triggers' = <<>> /\ pendingKind' = <<>> /\ clientInitial' = FALSE /\ answered' = 0 /\ eligible' = 0 /\ retries' = 0
 Get(f, k) == IF k \in DOMAIN f THEN f[k] ELSE 0
 Put(f, k, v) == [x \in DOMAIN f \cup {k} |-> IF x = k THEN v ELSE f[x]]
 
-ServerRx(conn, len) == rcvd' = Put(rcvd, conn, Get(rcvd, conn) + len) /\ UNCHANGED <<sentB, valid, triggers, pendingKind, clientInitial, answered>>
-ServerValidated(conn) == valid' = valid \cup {conn} /\ UNCHANGED <<rcvd, sentB, triggers, pendingKind, clientInitial, answered>>
+ServerRx(conn, len) == rcvd' = Put(rcvd, conn, Get(rcvd, conn) + len) /\ UNCHANGED <<sentB, valid, triggers, pendingKind, clientInitial, answered, eligible, retries>>
+ServerValidated(conn) == valid' = valid \cup {conn} /\ UNCHANGED <<rcvd, sentB, triggers, pendingKind, clientInitial, answered, eligible, retries>>
 \* the server starts a datagram of a connection
 ServerTx(conn, len) ==
   /\ conn \in valid \/ Get(sentB, conn) < 3 * Get(rcvd, conn)
   /\ sentB' = Put(sentB, conn, Get(sentB, conn) + len)
   /\ pendingKind' = Append(pendingKind, [kind |-> "conn", len |-> len])
-  /\ UNCHANGED <<rcvd, valid, triggers, clientInitial, answered>>
+  /\ UNCHANGED <<rcvd, valid, triggers, clientInitial, answered, eligible, retries>>
 
 \* a datagram reached the server but belongs to no connection
-Unroutable(len, isVn) == triggers' = Append(triggers, [len |-> len, vn |-> isVn]) /\ UNCHANGED <<rcvd, sentB, valid, pendingKind, clientInitial, answered>>
-Announce(kind) == pendingKind' = Append(pendingKind, [kind |-> kind, len |-> 0]) /\ UNCHANGED <<rcvd, sentB, valid, triggers, clientInitial, answered>>
+Unroutable(len, isVn) == triggers' = Append(triggers, [len |-> len, vn |-> isVn]) /\ UNCHANGED <<rcvd, sentB, valid, pendingKind, clientInitial, answered, eligible, retries>>
+Announce(kind) == pendingKind' = Append(pendingKind, [kind |-> kind, len |-> 0]) /\ UNCHANGED <<rcvd, sentB, valid, triggers, clientInitial, answered, eligible, retries>>
 Remove(s, i) == [j \in 1..(Len(s) - 1) |-> IF j < i THEN s[j] ELSE s[j + 1]]
 \* the datagram of an endpoint-level reply leaves the server
 \* a datagram leaves the server: it is the oldest one handed to the socket
 ServerDatagram(len) ==
   /\ Len(pendingKind) > 0
   /\ LET h == Head(pendingKind) IN
-     IF h.kind = "conn" THEN h.len = len /\ triggers' = triggers
+     IF h.kind = "conn" THEN h.len = len /\ triggers' = triggers /\ retries' = retries
+     ELSE IF h.kind = "retry" THEN
+          \* RFC 9000 17.2.5.1: at most one Retry per datagram that reached the server.  (The implementation also answers
+          \* Initial datagrams below 1200 bytes with a Retry - the 14.1 size check comes after the limiter; the property
+          \* bounds what is STARTED, and nothing has been sent to that address before, so this is noted, not rejected.)
+          /\ retries < eligible /\ len < 1200
+          /\ retries' = retries + 1 /\ triggers' = triggers
      ELSE \* some unroutable datagram received before explains the reply, and there are never more replies than triggers
           \* (the pairing itself is not fixed, which keeps the check deterministic)
           /\ (\E i \in 1..Len(triggers) :
@@ -48,15 +56,16 @@ ServerDatagram(len) ==
                   [] h.kind = "vn" -> triggers[i].len >= 1200 /\ ~triggers[i].vn   \* only for full-size datagrams, never for VN
                   [] OTHER -> TRUE) = TRUE
           /\ answered < Len(triggers)
-          /\ triggers' = triggers
+          /\ triggers' = triggers /\ retries' = retries
   /\ pendingKind' = Tail(pendingKind)
-  /\ answered' = IF Head(pendingKind).kind = "conn" THEN answered ELSE answered + 1
-  /\ UNCHANGED <<rcvd, sentB, valid, clientInitial>>
+  /\ answered' = IF Head(pendingKind).kind \in {"conn", "retry"} THEN answered ELSE answered + 1
+  /\ UNCHANGED <<rcvd, sentB, valid, clientInitial, eligible>>
 
-ClientWroteInitial == clientInitial' = TRUE /\ UNCHANGED <<rcvd, sentB, valid, triggers, pendingKind, answered>>
+ClientWroteInitial == clientInitial' = TRUE /\ UNCHANGED <<rcvd, sentB, valid, triggers, pendingKind, answered, eligible, retries>>
 \* known finding F4 (named): a client CONNECTION_CLOSE datagram that still carries an Initial packet is not padded
-ClientDatagram(len, closing) ==
+ClientDatagram(len, closing, copies) ==
   /\ clientInitial => (len >= 1200 \/ (KnownF4 /\ closing /\ PrintT(<<"KNOWN-FINDING", "F4">>)))
   /\ clientInitial' = FALSE
-  /\ UNCHANGED <<rcvd, sentB, valid, triggers, pendingKind, answered>>
+  /\ eligible' = eligible + copies
+  /\ UNCHANGED <<rcvd, sentB, valid, triggers, pendingKind, answered, retries>>
 =============================================================================
